@@ -9,11 +9,12 @@ CONSTANTS NP = 3
   D = 0
 INIT Init
 NEXT Next
-VIEW view
+VIEW viewE
 INVARIANT TypeOK
 INVARIANT CurIsOrigPlusNotes
 INVARIANT UntouchedAsReported
 INVARIANT ObservedTruth
+PROPERTY ObservedTruthA
 PROPERTY OnlyNamedPort
 PROPERTY FeaturesStartOver
 PROPERTY OthersLeaveAlone
